@@ -351,7 +351,8 @@ theorem DI.initiateRequests {s : State} (h : DI s) (id : CtxId) (provs : List Ad
     (getCtx s id).timeout provs 0 s
   exact (h.of_core hm.1 hm.2).setCtx id _ (good_getCtx h.1 id)
 
-theorem DI.onPaused {s : State} (h : DI s) (id : CtxId) (rc : Ctx) (hc : Good rc.consumer) : DI (Irismod.Service.onPaused s id rc) := by
+theorem DI.onPaused {s : State} (h : DI s) (id : CtxId) (rc : Ctx) (hc : Good rc.consumer) (cause : String) :
+    DI (Irismod.Service.onPaused s id rc cause) := by
   unfold Irismod.Service.onPaused
   split
   · exact (h.setCtx id { rc with batchState := .completed, state := .paused } hc).of_core ⟨rfl, rfl, rfl, rfl⟩ rfl
@@ -368,16 +369,14 @@ theorem DI.chargeAndStart {s : State} (h : DI s) (id : CtxId) (rc : Ctx) (hc : G
   · refine (((h.bank_frame _ ?_).initiateRequests id provs).addExp _ _).delNew _ _
     intro d
     rw [creditCoins_frame depAcc reqAcc (by decide), debitCoins_frame depAcc rc.consumer (Ne.symm hc.1)]
-  · refine ((h.bank_frame _ ?_).onPaused id rc hc).delNew _ _
-    intro d
-    rw [debitCoins_frame depAcc rc.consumer (Ne.symm hc.1)]
+  · exact (h.onPaused id rc hc _).delNew _ _
 
 theorem DI.newBatch {s : State} (h : DI s) (id : CtxId) : DI (Irismod.Service.newBatch s id) := by
   unfold Irismod.Service.newBatch
   have hc := good_getCtx h.1 id
   split
   · split
-    · exact h
+    · exact (h.onPaused id _ hc _).delNew _ _
     · split
       · exact h.chargeAndStart id _ hc _ _
       · exact (h.skipBatch id _ hc).delNew _ _
@@ -644,6 +643,8 @@ theorem DI_keeperStart {s s' : State} {id consumer} (hs : DI s) (h : keeperStart
   split at h
   · cases h
   rename_i rc hg
+  split at h
+  · cases h
   split at h
   · cases h
   split at h
